@@ -59,6 +59,9 @@ CHECKS["C16"] = dict(engine="coll-mc", ref="§3 C16", technique="exhaustive enum
     text="Every split operation (split_off with every start/end pair, split_at, split_first/last, split_off_first/last, partition, split_at_spare, map_in_place) on BumpBox<[T]>, FixedBumpVec and BumpVec is followed by every bounded sequence of follow-up operations on the parts (push until growth, shrink_to_fit, truncate, clear, pop, drop, into_boxed_slice, dealloc, merge back, merge in the wrong order, a fresh allocation): the parts must contain exactly the original elements, each once, in the documented order, must not share memory, capacities must add up, merge must restore adjacent parts and reject non-adjacent ones, no operation on one part may change another, and every value is dropped exactly once.")
 CHECKS["C07"]["engine"] = "arena-mc + coll-mc"
 CHECKS["C07"]["text"] = CHECKS["C07"]["text"] + " Collection part (coll-mc): for BumpVec, MutBumpVec and MutBumpVecRev (sized and zero-sized elements, initial lengths 0..4) every try_ growth operation is run with the k-th base-allocator call after the collection exists refused (alone, or with all later ones): it must return Err without panicking, leave length and contents unchanged, the collection must keep working once the fault is lifted, and drop / release accounting must be exact. Not covered: that panicking twins never return normally under allocation failure (they abort the process via handle_alloc_error; see DESIGN.md)."
+CHECKS["C04"] = dict(engine="escape", ref="§0.6, §3 C04", category="other", technique="exhaustive enumeration of a bounded grammar of safe programs (producer x handle kind x escape route, settings conversions), each decided by rustc; every must-fail program has a compiling control twin",
+    note="The explored space is a space of programs; the 'execution' of a program is its compilation. Decision procedure = rustc's borrow checker / trait solver / const evaluation, trusted. Only programs of the generated grammar are covered; which settings conversions must fail is taken from the conversion methods' documentation.",
+    text="escape/gen.py generates the complete product of 63 allocation-producing calls x 12 handle kinds x the escape routes meaningful for each handle (return from the closure, store outside, hold across guard drop / second scope() / guard reset / Bump::reset / reset_to_start / drop / claim-scope exit / pool reset / pool drop, use of the outer handle while borrowed, sending non-Send-allocator arenas to threads) plus every settings conversion that must be rejected; 3678 must-fail programs must each be rejected with an error of the expected class and 3823 control twins, differing only in not escaping, must compile (quick tier; thorough: 18696 + 19304).")
 CHECKS["C12"]["engine"] = "pure-mc + arena-mc"
 CHECKS["C12"]["text"] = "Pure part: ChunkSizeConfig compiled from /repo/src/chunk/size_config.rs is evaluated on the complete product of allocator value layouts x direction x minimum chunk size x capacity layouts (sizes up to the isize limit, aligns to 2^29) x extra granted bytes x every base-address phase: computed sizes are multiples of 16 (and of the header alignment downwards), the layout fits for every phase and min_align, growth is >= 2x-16, overflow yields None only near the address-space limit. " + CHECKS["C12"]["text"]
 
@@ -93,6 +96,7 @@ def main():
         "engines": [
             {"name": "arena-mc", "path": "harness/arena-mc", "serves_properties": [p for p in sorted(CHECKS) if "arena-mc" in CHECKS[p]["engine"]], "kind_free_text": "explicit-state exploration of real Bump/BumpScope over an instrumented deterministic base allocator"},
             {"name": "mutcoll-mc", "path": "harness/mutcoll-mc", "serves_properties": ["C15"], "kind_free_text": "the arena explorer built for configurations that carry the exclusive-borrow collection drivers"},
+            {"name": "escape", "path": "escape/gen.py", "serves_properties": ["C04"], "kind_free_text": "generated compile-fail / compile-pass corpus decided by rustc"},
             {"name": "coll-mc", "path": "harness/coll-mc", "serves_properties": ["C06", "C07", "C08", "C16"], "kind_free_text": "differential exploration of the vector-like collections against std models with callback-panic injection"},
             {"name": "str-mc", "path": "harness/str-mc", "serves_properties": ["C09"], "kind_free_text": "differential exploration of the string types against std String; exhaustive decoder / C-string input enumeration"},
             {"name": "pool-loom", "path": "harness/pool-loom", "serves_properties": ["C19"], "kind_free_text": "loom model checking of the real BumpPool (cfg hook: loom Mutex)"},
